@@ -558,5 +558,30 @@ func TestC11(t *testing.T) {
 			n++
 		}
 	}
+	// ScalarBaseMult multiplies the RFC 7748 base point u = 9, whatever a caller has meanwhile written
+	// through the exported, mutable Basepoint slice (run last; the contents are restored).
+	func() {
+		defer copy(curve25519.Basepoint, c11BasepointCopy)
+		nine := append([]byte(nil), c11BasepointCopy...)
+		contents := [][]byte{unhex(c11LowOrder[0]), unhex(c11LowOrder[1]), unhex(c11LowOrder[4]), bytes.Repeat([]byte{0xff}, 32), ref.IntLE(bigI(2), 32), scalars[2]}
+		for ci, content := range contents {
+			copy(curve25519.Basepoint, content)
+			for _, sc := range scalars[:4] {
+				var dst, s32 [32]byte
+				for i := range dst {
+					dst[i] = 0x5a
+				}
+				copy(s32[:], sc)
+				curve25519.ScalarBaseMult(&dst, &s32)
+				if want := ref.X25519(sc, nine); !bytes.Equal(dst[:], want) {
+					copy(curve25519.Basepoint, c11BasepointCopy)
+					msg := fmt.Sprintf("ScalarBaseMult(%x) = %x after a caller wrote %x through the exported Basepoint slice; the base point is u=9: want %x", sc, dst, content, want)
+					c.Violation(msg, "")
+					t.Fatalf("VF-VIOLATION: property=C11 %s", msg)
+				}
+				c.Case(true, fmt.Sprintf("basepoint-contents|%d|%x", ci, sc[:2]), "table:ScalarBaseMult-after-Basepoint-overwritten")
+			}
+		}
+	}()
 	c.Exhaustive("single-bit neighbours of distinguished u values (this shard's share of 14 x 256) x 2 scalars", n)
 }
